@@ -163,9 +163,13 @@ def twins(chk, hscan, K):
                'rule of_ext { strings: $a = "%s" $b = "qqqqzz" condition: nof of them }\n'
                'rule ar_ext { condition: ext + 1 > %d }\n'
                'rule forced { strings: $a = "%s" condition: $a at %d or filesize < 0 }\n'
-               'rule plain { strings: $a = "%s" condition: $a at %d }\n') % (
+               'rule plain { strings: $a = "%s" condition: $a at %d }\n'
+               # the required-strings analysis: none of these strings is in the data; a quantifier that is not a constant may be 0
+               'rule of_none { strings: $x = "zzqqzzqq1" $y = "qqzzqqzz2" condition: nof of them }\n'
+               'rule of_none_c { strings: $x = "zzqqzzqq1" $y = "qqzzqqzz2" condition: %d of them }\n'
+               'rule of_none_e { strings: $x = "zzqqzzqq1" $y = "qqzzqqzz2" condition: (filesize - filesize + %d) of them }\n') % (
             rulegen.yara_escape(text), rulegen.yara_escape(text), rulegen.yara_escape(text), other,
-            rulegen.yara_escape(text), off, rulegen.yara_escape(text), off)
+            rulegen.yara_escape(text), off, rulegen.yara_escape(text), off, n_of, n_of)
         s = hx(src.encode())
         # A: compiled with the final values
         cases.append(("A%d" % i, ["newcompiler", "defi ext %d" % off, "defi nof %d" % n_of, "add " + s, "getrules",
@@ -200,6 +204,9 @@ def twins(chk, hscan, K):
             chk.violation("scanner-redefine", "external redefined at scanner level is not honoured: %s vs %s" % (va, verdicts(c[0])), rep)
         elif ("forced" in va) != ("plain" in va):
             chk.violation("forced-eval", "forcing evaluation changes the verdict: %s" % va, rep)
+        elif len(set(x in va for x in ("of_none", "of_none_c", "of_none_e"))) != 1:
+            chk.violation("required-strings", "`N of them` with N = %d given as an external / an expression / a literal, none of the strings in the data: "
+                          "verdicts differ: %s" % (meta[i]["nof"], [x for x in ("of_none", "of_none_c", "of_none_e") if x in va]), rep)
         elif "at_ext" not in va or "plain" not in va:
             chk.violation("twin-expect", "planted string at offset ext not reported: %s" % va, rep)
         else:
